@@ -1,6 +1,7 @@
 //! Harness binary for the write-fonts / skrifa dependency cone.
 mod c05;
 mod c06;
+mod c07;
 
 fn main() {
     fvcore::quiet_panics();
@@ -8,6 +9,7 @@ fn main() {
     match args.first().map(|s| s.as_str()) {
         Some("c05") => c05::main(&args[1..]),
         Some("c06") => c06::main(&args[1..]),
+        Some("c07") => c07::main(&args[1..]),
         _ => {
             eprintln!("usage: fv-write <c06|...> ...");
             std::process::exit(2);
